@@ -3,6 +3,7 @@
 //  * the model values of a solver counter-example (SYM_REPLAY=file) -> confirmation of a violation on the real build
 // Contracts of the interpreter (std::uniform_int_distribution) are mirrored by strong overrides reading the same names.
 #include "sbv.h"
+#include <sched.h>
 #include <cstdio>
 #include <cstdlib>
 #include <cstring>
@@ -150,6 +151,7 @@ extern "C"
     int sbv_concrete(void) { return 1; }
     int sbv_is_symbolic(const void*, size_t) { return 0; }
     int sbv_ite(int c, int a, int b) { return c ? a : b; }
+    void sbv_yield(void) { sched_yield(); }
     void sbv_set_contract(const char* name, int mode) { contract_mode[name] = mode; }
     void sbv_harness(const char* cfg);
 }
